@@ -5,6 +5,7 @@ package harness
 import (
 	"bytes"
 	"fmt"
+	"github.com/ipfs/go-unixfsnode/file"
 	"reflect"
 	"testing"
 
@@ -179,6 +180,8 @@ func c14OneNode(t *rapid.T, st *Store, ls *ipld.LinkSystem, ev *Evid) *c14Kept {
 		m.HasData = true
 		typ = rapid.SampledFrom([]uint64{0, 0, 0, 1, 1, 1, 2, 2, 2, 2, 3, 3, 4, 4, 5, 5, 5, 5, 6, 7, 99, 1 << 31, 1 << 32, 1<<32 | 2, 1<<32 | 3, 1<<40 | 4, 1<<33 | 1, 1<<32 | 5, 1 << 63, 1<<63 | 2, ^uint64(0)}).Draw(t, "type")
 		u := &ufsFields{Type: typ}
+		// the wire presentation of the UnixFS message: what is reified depends on the message, not on its field order
+		u.Presentation = rapid.SampledFrom([]int{0, 0, 0, 1, 2, 3}).Draw(t, "presentation")
 		if typ == 5 {
 			u.HashType = u64p(0x22)
 			u.Fanout = u64p(rapid.SampledFrom([]uint64{8, 16, 256, 1024}).Draw(t, "fanout"))
@@ -507,6 +510,62 @@ func TestC14_R_ScratchBufferNodes(t *testing.T) {
 					lastKind = rn.Kind()
 				}
 				_ = lastKind
+			}
+		}
+	}
+}
+
+// The file constructors called directly (not through Reify) on every kind of input they accept - a raw bytes node, a
+// dag-pb file node, an already reified file: what they return exposes the node it was made from as its substrate.
+func TestC14_R_DirectFileConstructorsKeepSubstrate(t *testing.T) {
+	st := NewStore()
+	ls := st.LinkSystem()
+	data := lcgBytes(50, 4, 0)
+	root, _, err := buildFile(st, data, "size-16", 2)
+	if err != nil {
+		t.Fatal(err)
+	}
+	pn, err := loadPlain(ls, root)
+	if err != nil {
+		t.Fatal(err)
+	}
+	reified, err := loadReified(ls, root, "unixfs")
+	if err != nil {
+		t.Fatal(err)
+	}
+	rawNode := basicnode.NewBytes([]byte("a raw leaf"))
+	inputs := []struct {
+		name string
+		n    datamodel.Node
+		want []byte
+	}{{"raw bytes node", rawNode, []byte("a raw leaf")}, {"dag-pb file root", pn, data}, {"already reified file", reified, data}}
+	ctors := []struct {
+		name string
+		f    func(datamodel.Node) (datamodel.Node, error)
+	}{
+		{"file.NewUnixFSFile", func(n datamodel.Node) (datamodel.Node, error) { return file.NewUnixFSFile(sessionCtx, n, ls) }},
+		{"file.NewUnixFSFileWithPreload", func(n datamodel.Node) (datamodel.Node, error) {
+			return file.NewUnixFSFileWithPreload(sessionCtx, n, ls)
+		}},
+	}
+	for _, in := range inputs {
+		for _, c := range ctors {
+			fn, err := c.f(in.n)
+			if err != nil || fn == nil {
+				t.Fatalf("C14: %s on a %s: (%v, %v)", c.name, in.name, fn, err)
+			}
+			if fn.Kind() != datamodel.Kind_Bytes {
+				t.Fatalf("C14: %s on a %s gave kind %s", c.name, in.name, fn.Kind())
+			}
+			a, ok := fn.(adl.ADL)
+			if !ok {
+				t.Fatalf("C14: %s on a %s gave %T which exposes no substrate", c.name, in.name, fn)
+			}
+			if sub := a.Substrate(); sub != in.n {
+				t.Fatalf("C14: %s on a %s: Substrate() is %v (%T), not the node it was made from", c.name, in.name, sub, sub)
+			}
+			if b, err := fn.AsBytes(); err != nil || !bytes.Equal(b, in.want) {
+				t.Fatalf("C14: %s on a %s reads %d bytes (err %v), want %d", c.name, in.name, len(b), err, len(in.want))
 			}
 		}
 	}
